@@ -21,6 +21,13 @@ type plan struct {
 // clusterCheck runs the listed suites, reports violations of `props` (the
 // property itself first) and writes the evidence file.
 func clusterCheck(prop, tier string, plans []plan, need []string, assumptions []string) int {
+	return clusterCheckAlso(prop, tier, plans, need, assumptions, nil)
+}
+
+// clusterCheckAlso additionally reports violations of the listed other
+// properties under this property (signature prefixed with their id): C09
+// demands that C01, C02 and C07 keep holding under membership changes.
+func clusterCheckAlso(prop, tier string, plans []plan, need []string, assumptions []string, also []string) int {
 	t0 := time.Now()
 	rep := common.NewReport(prop)
 	cov := map[string]any{}
@@ -68,6 +75,12 @@ func clusterCheck(prop, tier string, plans []plan, need []string, assumptions []
 				continue
 			}
 			seen[key] = true
+			for _, a := range also {
+				if f.V.Property == a {
+					f.V.Signature = a + "/" + f.V.Signature
+					f.V.Property = prop
+				}
+			}
 			if f.V.Property != prop {
 				if !others[key] {
 					others[key] = true
@@ -149,7 +162,7 @@ func confirm(s *explore.Suite, f *explore.Found) bool {
 		}
 		ok := false
 		for _, v := range vs {
-			if v.Property == f.V.Property && v.Signature == f.V.Signature {
+			if (v.Property == f.V.Property && v.Signature == f.V.Signature) || v.Property+"/"+v.Signature == f.V.Signature {
 				ok = true
 			}
 		}
